@@ -6,9 +6,9 @@ class C02(InterpProp):
     DESIGN_REF = "DESIGN.md §7 C02"
     QUICK_N = 300
     THOROUGH_N = 12000
-    LEVEL_TEXT = 'PARTIAL. Coq theorem about the interpreter model (coq/model/Interp.v, see C05): in EVERY run, outside Alarm and Macro bodies an instruction that has started stays started and one that has completed stays completed -- it starts at most once (a per-node relation closed under every elementary update of every frame transition, lifted tick by tick). The order clauses are decided by the Coq monitor on the real interpreter.'
-    LEVEL_NOTE = "Theorems are about coq/model/Interp.v (with macros; injection, cancel / force and live edits are the subject of C14, C12 and C01). Tie: as for C05 -- tick-by-tick correspondence of the model with the real PInterpreter under scripted environments on every node's state fields, the interrupt map, the Block tag, scheduled commands and errors; the property's Coq monitor runs on the real observations. No axioms."
-    TECHNIQUE = 'Coq proof (per-node update relation closed under every frame transition of the interpreter model, lifted to ticks and runs) + tick-by-tick correspondence with the real PInterpreter + Coq monitor on the real node states'
+    LEVEL_TEXT = 'PARTIAL. Coq theorem about the interpreter model (coq/model/Interp.v, see C05): in EVERY run, outside Alarm and Macro bodies an instruction that has started stays started and one that has completed stays completed -- it starts at most once (a per-node relation closed under every elementary update of every frame transition, lifted tick by tick); and in EVERY state of EVERY run a started line outside Alarm and Macro bodies lies in a scope (parent line) that has started (a rely / guarantee invariant over every frame of every generator stack -- main flow, interrupt map and the copy of it that a tick takes: proofs/Interp_stack.v). The sibling-order clauses (a line starts only after the line before it has been passed) are decided by the Coq monitor on the real interpreter.'
+    LEVEL_NOTE = "Theorems are about coq/model/Interp.v (with macros; injection, cancel / force and live edits are the subject of C14, C12 and C01). Tie: as for C05 -- tick-by-tick correspondence of the model with the real PInterpreter under scripted environments on every node's state fields, the interrupt map, the Block tag, scheduled commands and errors; the property's Coq monitor runs on the real observations and evaluates the theorems' hypothesis wf_b (well-formed method tree) on every generated method. No axioms."
+    TECHNIQUE = 'Coq proof (per-node update relation closed under every frame transition of the interpreter model, lifted to ticks and runs; rely / guarantee stack invariant over every frame of every generator) + tick-by-tick correspondence with the real PInterpreter + Coq monitor on the real node states'
     RULE = 'methods and environments as for C05; non-trivial = at least 10 ticks and three completed lines'
 
     def nontrivial(self, case, obs):
